@@ -116,6 +116,12 @@ deriving Repr
 def uniformOn (S : List Act) (k : Nat) (actions : List Act) : List Rat :=
   actions.map (fun a => if a ∈ S then 1 / (k : Rat) else 0)
 
+/-- the count `self._s[a]` exists and is not 0 (it divides in `_Avg_R_UCB`) -/
+def Ucb.sPos (st : Ucb) (a : Act) : Bool :=
+  match dget st.s a with
+  | some n => n != 0
+  | none => false
+
 /-- `_pmf`; `val a` is `self._m[a] + self._Avg_R_UCB(a)` -/
 def Ucb.pmf (val : Act → Rat) (st : Ucb) (actions : List Act) : Except PErr (List Rat) :=
   let never := actions.filter (fun a => !dhas st.m a)
@@ -127,7 +133,7 @@ def Ucb.pmf (val : Act → Rat) (st : Ucb) (actions : List Act) : Except PErr (L
     | a0 :: rest =>
       if !(actions.all (fun a => dhas st.s a)) then .error .keyError   -- self._s[action]
       else if st.t = 0 then .error .valueError                  -- math.log(0)
-      else if !(actions.all (fun a => match dget st.s a with | some n => n != 0 | none => false)) then .error .zeroDivision
+      else if !(actions.all (fun a => st.sPos a)) then .error .zeroDivision
       else
         let mx := maxOf (val a0) (rest.map val)
         let best := actions.filter (fun a => val a = mx)
@@ -271,9 +277,9 @@ structure Corral where
 deriving Repr
 
 /-- `CorralLearner(learners, eta, T, mode, seed)` with M base learners -/
-def Corral.init (M : Nat) (eta gamma beta : Rat) (importance : Bool) (rng : Nat) : Corral :=
+def Corral.init (fl : Rat → Rat) (M : Nat) (eta gamma beta : Rat) (importance : Bool) (rng : Nat) : Corral :=
   { gamma := gamma, beta := beta, importance := importance,
-    ps := List.replicate M (1 / (M : Rat)), pbars := List.replicate M (1 / (M : Rat)),
+    ps := List.replicate M (fl (1 / (M : Rat))), pbars := List.replicate M (fl (1 / (M : Rat))),
     etas := List.replicate M eta, rhos := List.replicate M (2 * (M : Rat)), rng := rng }
 
 /-- `sum(p_b*int(a==b_a) for p_b,b_a in zip(p_bars, base_actions))` -/
